@@ -7,6 +7,12 @@
  *   new <id> narr|nlst arr|lst|tab <c>*      an Array / List whose elements are Arrays / Lists / Tables of Int (c = c<int>.<int>…)
  *   new <id> junk dead|bad                   an object whose header carries the freed-object magic number / a foreign one
  *   get|set|mem|rem|push|pushat|pop|popat|resize|len|concat|append|assign|print|typeof|cast|dealloc|deallocelem <id|N> ...
+ *   getk|getv <tab> <k>                      get(table, p) where p is an address inside the table's own slot array: the key object
+ *                                            (getk) / the value object (getv) of the occupied slot that holds key k (bad-op when no
+ *                                            slot holds k).  Since fix bc940bb Table_Get takes its address shortcut only for the key
+ *                                            object of an occupied slot; any other address is an ordinary argument (cast, hash, probe):
+ *                                            getv must behave exactly as get with a fresh copy of that value — ValueError when the
+ *                                            value type is not the key type, KeyError when no such key is stored.
  * values: i<int> s<alnum*> p<int> N        types: int str plain
  *
  * For every op the harness
@@ -369,9 +375,9 @@ static void nshadow_sync(HObj* h) {
 
 /* ------------------------------------------------------------------------------------------------ ops */
 enum { OP_GET, OP_SET, OP_MEM, OP_REM, OP_PUSH, OP_PUSHAT, OP_POP, OP_POPAT, OP_RESIZE, OP_LEN, OP_CONCAT, OP_APPEND, OP_ASSIGN,
-       OP_PRINT, OP_TYPEOF, OP_CAST, OP_DEALLOC, OP_DEALLOCELEM, OP_NOPS };
+       OP_PRINT, OP_TYPEOF, OP_CAST, OP_DEALLOC, OP_DEALLOCELEM, OP_GETK, OP_GETV, OP_NOPS };
 static const char* op_name[] = { "get", "set", "mem", "rem", "push", "pushat", "pop", "popat", "resize", "len", "concat", "append", "assign",
-       "print", "typeof", "cast", "dealloc", "deallocelem" };
+       "print", "typeof", "cast", "dealloc", "deallocelem", "getk", "getv" };
 typedef struct {
   int code; HVal a, b; long n;
   int src_cont; CVal cv;           /* set / push / pushat on a nested container: the source is a container token */
@@ -389,7 +395,7 @@ static int parse_op(int code, char** w, int nw, Op* op) {   /* w: tokens after t
     case OP_PUSH: case OP_APPEND:
       if (nw == 1 && w[0][0] == 'c') { op->src_cont = 1; return parse_cval(w[0], &op->cv); }
       return nw == 1 && parse_val(w[0], &op->a);
-    case OP_GET: case OP_MEM: case OP_REM: case OP_POPAT: case OP_ASSIGN:
+    case OP_GET: case OP_MEM: case OP_REM: case OP_POPAT: case OP_ASSIGN: case OP_GETK: case OP_GETV:
       return nw == 1 && parse_val(w[0], &op->a);
     case OP_SET:                                                                             /* a = key, b = value */
       if (nw == 2 && w[1][0] == 'c') { op->src_cont = 1; return parse_val(w[0], &op->a) && parse_cval(w[1], &op->cv); }
@@ -606,6 +612,11 @@ static const char* ref_apply(HObj* h, Op* op, RefOut* out) {
     case K_TAB: case K_TRE:
       switch (op->code) {
         case OP_GET: if ((e = ref_cast(h->kty, &op->a))) return e; if ((at = map_find(s, &op->a)) < 0) return E_KEY; val_text(&s->v[at], out->text); return NULL;
+        /* an argument that lives inside the table is an argument like any other: the key object finds its own value; the value
+           object is looked up as a key — of the wrong type (ValueError), absent (KeyError) or the key of some pair */
+        case OP_GETK: if ((at = map_find(s, &op->a)) < 0) { out->no_expectation = 1; return NULL; } val_text(&s->v[at], out->text); return NULL;
+        case OP_GETV: { if ((at = map_find(s, &op->a)) < 0) { out->no_expectation = 1; return NULL; } HVal v = s->v[at];
+          if ((e = ref_cast(h->kty, &v))) return e; if ((at = map_find(s, &v)) < 0) return E_KEY; val_text(&s->v[at], out->text); return NULL; }
         case OP_MEM: if ((e = ref_cast(h->kty, &op->a))) return e; strcpy(out->text, map_find(s, &op->a) >= 0 ? "true" : "false"); return NULL;
         case OP_SET: if ((e = ref_cast(h->kty, &op->a))) return e; if ((e = ref_cast(h->vty, &op->b))) return e;
           at = map_find(s, &op->a); if (at < 0) { if (s->n >= MAXN) return NULL; at = s->n++; } s->k[at] = op->a; s->v[at] = op->b; return NULL;
@@ -666,6 +677,13 @@ static void ret_val(var r, char* out) {
   HVal v; rd(r, &v); val_text(&v, out);
 }
 
+/* the occupied slot of the real table whose key reads as `k` (-1: none) */
+static long slot_of(var table, const HVal* k) {
+  struct Table* t = table;
+  for (size_t i = 0; i < t->nslots; i++) if (Table_Key_Hash(t, i)) { HVal x; rd(Table_Key(t, i), &x); if (val_eq(&x, k)) return (long)i; }
+  return -1;
+}
+
 /* executes the op on the real library; fills `res` with "ok[:value]"; returns the raised exception or NULL */
 static var do_call(var target, HObj* h, Op* op, char* res) {
   var exc = NULL; char val[300] = "";
@@ -675,6 +693,10 @@ static var do_call(var target, HObj* h, Op* op, char* res) {
     case OP_GET:
       if (h && NEST(h)) { V_TRY(exc, { var r = get(target, A); sprintf(val, "%zu", len(r)); }); break; }   /* the element, observed through its length */
       V_TRY(exc, { var r = get(target, A); ret_val(r, val); }); break;
+    case OP_GETK: case OP_GETV: {      /* the argument is the key / value object inside the slot array itself */
+      long i = slot_of(target, &op->a); if (i < 0) break;
+      var p = op->code == OP_GETK ? Table_Key((struct Table*)target, (size_t)i) : Table_Val((struct Table*)target, (size_t)i);
+      V_TRY(exc, { var r = get(target, p); ret_val(r, val); }); break; }
     case OP_SET: V_TRY(exc, set(target, A, B)); break;
     case OP_MEM: V_TRY(exc, { bool r = mem(target, A); strcpy(val, r ? "true" : "false"); }); break;
     case OP_REM: V_TRY(exc, rem(target, A)); break;
@@ -810,6 +832,7 @@ static size_t real_len(HObj* h) {
   return 0;
 }
 static int excluded(HObj* h, Op* op) {
+  if (op->code == OP_GETK || op->code == OP_GETV) return h->kind != K_TAB || slot_of(h->obj, &op->a) < 0;   /* a slot of this Table must hold the key */
   if (op->src_cont && !NEST(h)) return 1;                      /* container tokens are sources for nested containers only */
   if (NEST(h)) {
     const HVal* srcv = op->code == OP_SET || op->code == OP_PUSHAT ? &op->b : &op->a;
@@ -892,7 +915,7 @@ static void run_line(char* l, int lineno) {
   Op op;
   if (!strcmp(w[1], "N")) {
     /* a call on the NULL object: Type_Of(NULL) must raise ValueError before anything happens */
-    if (code == OP_PRINT || code == OP_DEALLOCELEM || !parse_op(code, w + 2, nw - 2, &op) || (code == OP_CONCAT && op.src_id >= 0) || (code == OP_CAST && !type_by_name(op.tname))) { O("bad-op"); return; }
+    if (code == OP_PRINT || code == OP_DEALLOCELEM || code == OP_GETK || code == OP_GETV || !parse_op(code, w + 2, nw - 2, &op) || (code == OP_CONCAT && op.src_id >= 0) || (code == OP_CAST && !type_by_name(op.tname))) { O("bad-op"); return; }
     char res[400]; var exc = do_call(NULL, NULL, &op, res);
     n_ops++; if (exc) { n_raised++; count_exc(v_exc_name(exc)); }
     O("%s | -", res);
